@@ -72,7 +72,9 @@ def run(ctx, rep):
         "(parameter header, block/tree/token corrections, EOF signalling) form a language included in the one the "
         "reconstructor reads, with writer constants bound to the reader's decoded values; plus two information-flow "
         "rules on decompress_deflate_stream (result independent of `verify`, result depends on the input only through "
-        "parse_deflate). Necessary conditions of bit-exact reconstruction for every stream; the value-level behaviour of "
+        "parse_deflate); the same inclusion with every mutation of the shared predictor state as an event (analysis and "
+        "reconstruction drive the predictor identically); every Huffman/extra-bits write is at most 25 bits wide (bit-buffer "
+        "capacity) and the reference arm of the block writer is complete. Necessary conditions of bit-exact reconstruction for every stream; the value-level behaviour of "
         "the shared predictor is not decided.")
     rep.trusted = ["Ok/Err and constant propagation of the abstract interpreter (pfa/proto.py) over-approximates writer paths",
                    "trait-method calls on the codec are the only way to touch the correction stream (type system)"]
